@@ -52,7 +52,7 @@ func errorClass(msg string, tokAt string) string {
 	case has(" takes ") && has("argument"), has("it has no return value") && !has("invalid declaration"):
 		return "-" // assertArgTypes, argument types
 	case has("invalid binary operator"), has("mismatched type for"), has(`" takes num, string or array type`), has(`" takes num or array type`),
-		has(`array repetition ("*")`), has("takes num type, found"), has("takes num or string type"), has("takes bool type"):
+		has(`array repetition ("*")`), has("takes num type, found"), has("takes num or string type"), has("takes bool type"), has("takes values, found"):
 		return "binary"
 	case has("only array, string and map type can be indexed"):
 		return "not_indexable"
